@@ -115,11 +115,21 @@ class ThreadingShim:
 def install_lock_seam(sched):
     """Replace `threading` in every library module that imported it, and the locks of already existing caches."""
     n = 0
+    lock_types = (type(threading.Lock()), type(threading.RLock()))
+    shim = ThreadingShim(sched)
     for name, mod in list(sys.modules.items()):
         if name.startswith("django_components") and mod is not None:
             if isinstance(getattr(mod, "threading", None), (type(threading), ThreadingShim)):
-                mod.threading = ThreadingShim(sched)
+                mod.threading = shim
                 n += 1
+            for attr, val in list(vars(mod).items()):
+                # `from threading import Lock / RLock` and lock INSTANCES created at import time (module globals)
+                if val is threading.Lock or val is threading.RLock:
+                    setattr(mod, attr, shim.RLock if val is threading.RLock else shim.Lock)
+                    n += 1
+                elif isinstance(val, lock_types):
+                    setattr(mod, attr, SimLock(sched, attr))
+                    n += 1
     try:
         import django_components.cache as djc_cache
 
